@@ -133,13 +133,19 @@ class SamplingHandler:
         return val
 
     def choice(self, gen, a, size, replace, p):
-        if replace or p is not None:
-            raise UnscriptedDraw(f"choice(replace={replace}, p={p})")
+        if p is not None:
+            raise UnscriptedDraw(f"choice(p={p})")
         a = numpy.asarray(a)
         k = int(numpy.prod(shape_of(size))) if size is not None else 1
         pool = a.tolist()
         out = []
-        if self.ordered_choice:
+        if replace:                      # not used by the code as written; every sample with replacement is reachable
+            vals = []
+            for v in pool:
+                if v not in vals:
+                    vals.append(v)
+            out = [vals[self._choose(len(vals), "choice-r")] for _ in range(k)]
+        elif self.ordered_choice:
             for _ in range(k):
                 vals = []
                 for v in pool:
@@ -510,6 +516,8 @@ class Population:
                    vrnt_hapgrp=numpy.arange(m, dtype="int64"), vrnt_mask=numpy.ones(m, dtype=bool))
         self.pgmat = DensePhasedGenotypeMatrix(mat=ph, taxa=taxa, taxa_grp=taxa_grp, **vkw)
         self.pgmat.group_vrnt()
+        self.ph0 = numpy.array(self.pgmat.mat, copy=True)
+        self.taxa0 = list(taxa.tolist())
         self.gmat = DenseGenotypeMatrix(mat=ph.sum(0).astype("int8"), taxa=taxa.copy(), taxa_grp=taxa_grp.copy(), ploidy=2, **vkw)
         self.gmat.group_vrnt()
         trait = numpy.array([f"trait{j}" for j in range(self.t)], dtype=object)
@@ -525,6 +533,10 @@ class Population:
 
     def individual_at(self, pos):
         return self.order[int(pos)]
+
+    def pgmat_unchanged(self):
+        return (numpy.array_equal(numpy.asarray(self.pgmat.mat), self.ph0) and list(self.pgmat.taxa.tolist()) == self.taxa0
+                and self.pgmat.ntaxa == self.n)
 
 
 # ======================================================================================
